@@ -29,18 +29,18 @@ check('C25', title='Concurrent senders get unique consecutive sequence numbers',
            'thread pops the real FastFlow queue. Every schedule with at most b preemptions is executed. Checked per execution: the messages on the wire carry MsgSeqNum start, start+1, ... in wire order; every message handed '
            'to send/send_batch is on the wire exactly once and nothing else is; every socket write is a sequence of whole messages; the store returns under each number exactly the bytes transmitted under it and holds nothing '
            'else; the control record and the session counter equal start + number of messages; every send reports success; no deadlock, livelock (a message never written), crash; and in the tsan parts no ThreadSanitizer report.',
-      level_note='2 threads x 2 sends at bound 3, 3 threads (two sends + a batch) at bound 2, batches against singles, file store, pipelined 2 x 1 at bound 2 (quick); deeper bounds and 4 threads, capped by the deadline (thorough). '
+      level_note='2 threads x 2 sends at bound 4, 3 threads (two sends + a batch) at bound 3, batches against singles at bound 3, file store (its system calls are scheduling points), pipelined 2 x 1 at bound 2 and send against batch at bound 1 (quick); deeper bounds and 4 threads, capped by the deadline (thorough). '
                  '8 threads are out of reach of exhaustive search. Data-race clause: every explored schedule of the tsan parts (bound 2 threaded, bound 1 pipelined in the quick tier).',
       rule='execution = one complete schedule; distinct schedules by construction; non-trivial = at least one preemption', assumptions=_SCHED,
       budget={'quick': 330, 'thorough': 2400},
       parts=[
-          _p('thr-2x2', 'schedp', ['pm=t', 'ops=ss,ss', 'bound=3'], ['pm=t', 'ops=ss,ss', 'bound=5']),
-          _p('thr-3', 'schedp', ['pm=t', 'ops=s,s,b', 'bound=2'], ['pm=t', 'ops=s,sb,B', 'bound=3']),
-          _p('thr-batch', 'schedp', ['pm=t', 'ops=sb,bs', 'bound=2', 'start=7'], ['pm=t', 'ops=sb,bs', 'bound=4', 'start=7']),
+          _p('thr-2x2', 'schedp', ['pm=t', 'ops=ss,ss', 'bound=4'], ['pm=t', 'ops=sss,sss', 'bound=4']),
+          _p('thr-3', 'schedp', ['pm=t', 'ops=s,s,b', 'bound=3'], ['pm=t', 'ops=s,sb,B', 'bound=3']),
+          _p('thr-batch', 'schedp', ['pm=t', 'ops=sb,bs', 'bound=3', 'start=7'], ['pm=t', 'ops=sb,bs', 'bound=5', 'start=7']),
           _p('thr-file', 'schedp', ['pm=t', 'ops=s,b', 'pk=f', 'bound=2'], ['pm=t', 'ops=sb,bs', 'pk=f', 'bound=3']),
           _p('thr-4', 'schedp', None, ['pm=t', 'ops=s,s,s,s', 'bound=2'], thorough_only=True),
           _p('pipe-2x1', 'schedp', ['pm=p', 'ops=s,s', 'bound=2'], ['pm=p', 'ops=s,s', 'bound=3']),
-          _p('pipe-batch', 'schedp', None, ['pm=p', 'ops=s,b', 'bound=2'], thorough_only=True),
+          _p('pipe-batch', 'schedp', ['pm=p', 'ops=s,b', 'bound=1'], ['pm=p', 'ops=s,b', 'bound=2']),
           _p('tsan-thr', 'tsan', ['pm=t', 'ops=ss,ss', 'bound=2'], ['pm=t', 'ops=sb,bs', 'bound=3']),
           _p('tsan-pipe', 'tsan', ['pm=p', 'ops=s,s', 'bound=1'], ['pm=p', 'ops=s,s', 'bound=2']),
       ])
